@@ -47,6 +47,11 @@ pub fn run_all() -> (Vec<(String, String, serde_json::Value)>, u64) {
         if let (Some(f), Some(l)) = (kids.first(), kids.last()) {
             sels.push(("the first child", vec![*f]));
             sels.push(("the last and the first child", vec![*l, *f]));
+            // a selection that names an instance twice is outside the round-trip properties, but
+            // whatever the writer makes of it, it must make the same thing every time
+            if kids.len() >= 3 {
+                sels.push(("three children, the first of them named twice", vec![kids[0], kids[1], kids[2], kids[0]]));
+            }
         }
         for codec in 0..4u8 {
             // XML of the 9000-wide DOM only for the binary-relevant pairs would be slow: one codec pass each
